@@ -56,7 +56,7 @@ CLAIMED = {
         "The float lemma round(v*10**-k, k) == v/10**k (all 32-bit v) is assumed in the VCs and decided by a sweep on CPython floats - strided in quick, all 2^32 in thorough; hence 'other'.",
    note="Assumed: construct parse rules, datetime model; float lemma by exhaustive enumeration (thorough).", technique=DED + " via the grammar layer; exhaustive float sweep for the rounding lemma", design="DESIGN.md section 9 C08"),
  "C09": dict(level="other",
-   text="Deductive through the grammar layer for the Kamstrup 10-second and hourly lists (one/three phase), with null-data padding, direct and CT (685...) meter types, bare and framed: currents == register/100 resp. /1000, energies == register x 10, others unchanged, text verbatim, APDU clock. Float lemma by sweep; hence 'other'.",
+   text="Deductive through the grammar layer for the Kamstrup 10-second and hourly lists (one/three phase), with null-data padding (after some and after every element), direct and CT (685...) meter types for both kinds of list, bare and framed (the Swedish list has the element set of the 10-second three-phase list): currents == register/100 resp. /1000, energies == register x 10, others unchanged, text verbatim, APDU clock. Float lemma by sweep; hence 'other'.",
    note="Assumed: construct parse rules, datetime model; float lemma by exhaustive enumeration (thorough).", technique=DED + " via the grammar layer; exhaustive float sweep for the rounding lemma", design="DESIGN.md section 9 C09"),
  "C10": dict(level="proof",
    text="Deductive through the grammar layer: a symbolic 12-octet date-time (all valid dates 1..9999, all times, hundredths 0..99/0xFF, deviation -720..720/0x8000, all 256 status octets, any day of week) in each of the six syntactic positions decodes to the same civil fields, "
